@@ -28,7 +28,16 @@ func TestVerifC18Aux(t *testing.T) {
 	}
 	for it := 0; it < iters; it++ {
 		capLive, capNon := 1+it%4, 1+(it/4)%4
-		conf := &Config{CacheDuration: "1h", CacheCapacity: capLive, CacheDurationNonLive: "1h", CacheCapacityNonLive: capNon}
+		// every other iteration: verdicts expire while the goroutines run (real time), so that the clean-up
+		// really removes entries beside the insertions and evictions
+		life := "1h"
+		if it%2 == 1 {
+			// (capacities just below the 20 hosts of each kind: entries live long enough to expire, and
+			// insertions still evict)
+			life = "4ms"
+			capLive, capNon = 6+it%8, 6+(it/8)%8
+		}
+		conf := &Config{CacheDuration: life, CacheCapacity: capLive, CacheDurationNonLive: life, CacheCapacityNonLive: capNon}
 		blt := &CachedLivenessTester{stats: &stats{}}
 		if err := blt.Init(conf); err != nil {
 			t.Fatalf("Init: %v", err)
@@ -64,14 +73,36 @@ func TestVerifC18Aux(t *testing.T) {
 				}
 			}()
 		}
+		if it%2 == 1 {
+			// the clean-up runs all the time beside the insertions (the station's ticker calls it while
+			// registrations arrive); it stops with the readers, so what it did last is still there
+			for g := 0; g < 2; g++ {
+				hot.Add(1)
+				go func() {
+					defer hot.Done()
+					for {
+						select {
+						case <-stop:
+							return
+						default:
+							blt.ClearExpiredCache()
+						}
+					}
+				}()
+			}
+		}
 		for g := 0; g < 6; g++ {
 			g := g
 			wg.Add(1)
 			go func() {
 				defer wg.Done()
-				for k := 0; k < 60; k++ {
+				nq := 60
+				if it%2 == 1 {
+					nq = 400 // the run outlasts the lifetime several times
+				}
+				for k := 0; k < nq; k++ {
 					blt.PhantomIsLive(fmt.Sprintf("10.0.0.%d", (g*7+k*3)%40), 443)
-					if k%16 == 15 {
+					if k%16 == 15 || (it%2 == 1 && k%3 == 2) {
 						blt.ClearExpiredCache()
 					}
 				}
